@@ -93,10 +93,11 @@ k_alpha *k_alpha_load(const char *name) {
 					if (b) for (e = b + 1; *e && *e != '}'; e++) if (*e == '\\' && e[1]) e++;
 					if (!b || !e || !*e) { fprintf(stderr, "bad \\R in %s\n", path); _exit(3); }
 					size_t tl = e - b - 1;
-					/* nested escapes inside the repeated text: only \n \t \s */
+					/* nested escapes inside the repeated text: \n \t \s \xHH */
 					unsigned char *t = malloc(tl + 1); size_t tn = 0;
 					for (size_t q = 0; q < tl; q++) {
-						if (b[1 + q] == '\\' && q + 1 < tl) { q++; char d = b[1 + q]; t[tn++] = d == 'n' ? '\n' : d == 't' ? '\t' : d == 's' ? ' ' : d; }
+						if (b[1 + q] == '\\' && q + 3 < tl + 1 && b[2 + q] == 'x' && q + 3 < tl) { char h[3] = { b[3 + q], b[4 + q], 0 }; t[tn++] = (unsigned char)strtoul(h, NULL, 16); q += 3; }
+						else if (b[1 + q] == '\\' && q + 1 < tl) { q++; char d = b[1 + q]; t[tn++] = d == 'n' ? '\n' : d == 't' ? '\t' : d == 's' ? ' ' : d; }
 						else t[tn++] = b[1 + q];
 					}
 					out = realloc(out, n + cnt * tn + (len - (e - line)) + 8);
